@@ -250,6 +250,10 @@ pub fn main(mode: Mode) -> i32 {
             ctx.run_enum(&p, corpus_cases());
             let n = ctx.n(150_000, 3_000_000);
             ctx.run_search(&p, n, 160, 400);
+            if ctx.thorough() || std::env::var("VERIF_FUZZ").is_ok() {
+                let runs = ctx.n(200_000, 8_000_000) as u64;
+                crate::fuzzsup::run_campaign(&mut ctx, &p, &crate::fuzzsup::Campaign { target: "fuzz_lossless", decode: crate::fuzzsup::decode_text, runs, max_len: 4096, seeds: crate::fuzzsup::repo_seeds(2500, 300, b""), timeout: std::time::Duration::from_secs(3000) });
+            }
             ctx.require_class("lossless/with-parse-errors");
             ctx.require_class("lossless/non-LF-endings");
             ctx.finish()
